@@ -34,8 +34,60 @@ def knobs_for(rng):
           "p_nested_field": rng.choice([0, 0.25]), "p_list_field": rng.choice([0, 0.25]), "p_for": rng.choice([0, 0.6]), "p_list": 0.3, "p_freevar": 0.2, "p_tmp": 0.25, "p_const_struct": rng.choice([0, 0.3]), "p_nested_slice": rng.choice([0, 0.3]), "p_vfunc": rng.choice([0, 0.5]), "p_tmp_chain": 0.3, "p_vsl": rng.choice([0, 0.25]), "p_lambda": rng.choice([0, 0.3]), "p_func": rng.choice([0, 0.3]), "p_shadow": 0.3, "p_subclass": rng.choice([0, 0.5]), "p_callshapes": rng.choice([0, 0.4])}
 
 
+ALIAS_SRC = """from pymtl3 import *
+class Child(Component):
+  def construct(s):
+    s.in_ = InPort({w}); s.out = OutPort({w})
+    @update
+    def up_c(): s.out @= s.in_ + 1
+class Top(Component):
+  def construct(s):
+    s.in_ = InPort({w}); s.out = OutPort({w})
+    s.c = [Child() for _ in range({n})]
+    for i in range({n}): s.c[i].in_ //= s.in_
+    @update
+    def up_sum():
+      t = Bits{w}(0)
+      for c in s.c:
+        t = t + c.out
+      s.out @= t
+"""
+
+
+def run_alias_probe(sh, k):
+  """probe stream of the listed finding F-S9: a block reads ports of sub-components through a LOCAL name (loop variable over a
+  list of components); the ports are missing from its read set, so it is not ordered after the children's blocks"""
+  import random as _r
+  from pymtl3 import DefaultPassGroup
+  from pymtl3.passes.PassGroups import SimpleSimPass
+  rng = sh.rng("alias", k)
+  w, n = rng.choice([4, 8, 16]), rng.randrange(2, 5)
+  src = ALIAS_SRC.format(w=w, n=n)
+  mod = G.load_source(src, "c01alias")
+  try:
+    for seed in range(12):
+      _r.seed(seed)                      # SimpleSchedulePass breaks ties with random.shuffle
+      top = mod.Top(); top.elaborate(); top.apply(SimpleSimPass() if seed else DefaultPassGroup())
+      for _ in range(3):
+        v = rng.getrandbits(w)
+        top.in_ @= v
+        top.sim_eval_combinational()
+        sh.count("alias_probe_evaluations")
+        exp = (n * (v + 1)) & ((1 << w) - 1)
+        if int(top.out) != exp:
+          rd = sorted(repr(x) for b, xs in top.get_all_upblk_metadata()[0].items() if b.__name__ == "up_sum" for x in xs)
+          sh.violation("signal-values-differ-from-the-dataflow-equations", {"probe": "reads through a local alias of a sub-component",
+                       "in_": v, "out": int(top.out), "expected": exp, "read_set_of_up_sum": rd, "schedule": [b.__name__ for b in top._sched.update_schedule],
+                       "source": src}, mechanism="reads-through-local-alias-of-subcomponent-missing-from-read-set", case=("alias", k))
+          return
+  finally:
+    G.unload(mod)
+
+
 def run_shard(sh):
   q = sh.tier == "quick"
+  if sh.idx == 0:
+    for k in range(3): run_alias_probe(sh, k)
   for case in range(sh.params["designs"]):
     if sh.only is not None and str(case) != str(sh.only).strip('"'):
       continue
